@@ -1031,6 +1031,10 @@ func keyBounded(p *Prog, o *Origin, fa *Facts, at ssa.Instruction, key *Term, bo
 				why = append(why, kv.Name+": guarded by a length test")
 				continue
 			}
+			if ub := lenBoundAt(p, fa, at, v); ub >= 0 && ub <= 255 {
+				why = append(why, fmt.Sprintf("%s: at most %d bytes here (length test on the path or in a validating helper)", kv.Name, ub))
+				continue
+			}
 			return false, fmt.Sprintf("component %s = %s is externally supplied and unbounded here: a value longer than 255 bytes makes MustEncode panic", kv.Name, clip(v.String(), 80))
 		}
 	}
